@@ -78,6 +78,52 @@ theorem C06_int_roundtrip (n : Int) : decodeInt (intBytes n) = n := by
 theorem C06_intBytes_injective (a b : Int) (h : intBytes a = intBytes b) : a = b := by
   rw [← C06_int_roundtrip a, ← C06_int_roundtrip b, h]
 
+/-! ### floats -/
+
+theorem natBytes8_injective (a b : Nat) (ha : a < 18446744073709551616) (hb : b < 18446744073709551616)
+    (h : natBytes 8 a = natBytes 8 b) : a = b := by
+  have h1 := natOfBytes_natBytes 8 a
+  have h2 := natOfBytes_natBytes 8 b
+  rw [h] at h1
+  have : a % 256 ^ 8 = b % 256 ^ 8 := by rw [← h1, ← h2]
+  have e : (256 : Nat) ^ 8 = 18446744073709551616 := by decide
+  rw [e] at this
+  omega
+
+theorem floatBytes_cases (x : Nat) (hn : isNaNBits x = false) :
+    (x = 9218868437227405312 ∧ floatBytes x = [105, 110, 102]) ∨
+    (x = 18442240474082181120 ∧ floatBytes x = [45, 105, 110, 102]) ∨
+    (x = 9223372036854775808 ∧ floatBytes x = [45, 48, 46, 48]) ∨
+    (floatBytes x = natBytes 8 x) := by
+  unfold floatBytes
+  rw [hn]
+  simp only [Bool.false_eq_true, if_false]
+  by_cases h1 : x = 9218868437227405312
+  · exact Or.inl ⟨h1, by simp [h1]⟩
+  · by_cases h2 : x = 18442240474082181120
+    · exact Or.inr (Or.inl ⟨h2, by simp [h2]⟩)
+    · by_cases h3 : x = 9223372036854775808
+      · exact Or.inr (Or.inr (Or.inl ⟨h3, by simp [h3]⟩))
+      · exact Or.inr (Or.inr (Or.inr (by simp [h1, h2, h3])))
+
+/-- **C06 (float arguments)**: two doubles that are not NaN serialise to the same bytes only if they are the same double
+(bit for bit: `0.0` and `-0.0`, and values one unit in the last place apart, stay apart).  All NaNs serialise alike. -/
+theorem C06_floatBytes_injective (a b : Nat) (ha : a < 18446744073709551616) (hb : b < 18446744073709551616)
+    (na : isNaNBits a = false) (nb : isNaNBits b = false) (h : floatBytes a = floatBytes b) : a = b := by
+  have la := length_natBytes 8 a
+  have lb := length_natBytes 8 b
+  rcases floatBytes_cases a na with ⟨ea, fa⟩ | ⟨ea, fa⟩ | ⟨ea, fa⟩ | fa <;>
+  rcases floatBytes_cases b nb with ⟨eb, fb⟩ | ⟨eb, fb⟩ | ⟨eb, fb⟩ | fb <;>
+  rw [fa, fb] at h <;>
+  first
+    | omega
+    | (simp at h)
+    | (rw [← h] at lb; simp at lb)
+    | (rw [h] at la; simp at la)
+    | exact natBytes8_injective a b ha hb h
+
+example : floatBytes 4596373779694328218 ≠ floatBytes 4596373779694328219 := by decide   -- 0.3 and 0.30000000000000004…
+
 /-! ### Python's integer hash collides -/
 
 theorem C06_pyhash_collision_neg1_neg2 : pyHashInt (-1) = pyHashInt (-2) ∧ (-1 : Int) ≠ -2 := by decide
